@@ -148,7 +148,7 @@ def run_variant(v: dict) -> dict:
     if v["expect"] == "fire":
         ok = rc == 1 and (v.get("rule") is None or v["rule"] in rules)
     elif v["expect"] == "known-limit":
-        ok = rc in (0, 1)
+        ok = rc in (0, 1, 2)  # a recorded limit (DESIGN 15.5 / 16.5 / 17.4) is run and reported, not judged: an alarm or a fail-closed analysis error
     else:
         ok = rc == 0
     res["status"] = "ok" if ok else "FAILED"
